@@ -362,7 +362,7 @@ def replay(ctx, data):
 
 
 MANIFEST = dict(
-    technique="Lean 4: state-machine theorems over all call histories for the IPhreeqc wrapper (unload/load/test_db) under EngineReset; decide over member tables regenerated from the clang AST; differential correspondence history+load vs fresh+load on the real code",
-    text="Theorems (Properties/C07.lean): load_resets_wrapper, load_result_eq_fresh, load_then_calls_eq_fresh, load_depends_on_survivors_only, load_keeps_id_and_switches, load_keeps_names, unload_resets (all histories, abstract engine with EngineReset); witnesses load_failure_keeps_output_string, engine_reset_needed. Obligations over Gen/Members.lean (593 members of class Phreeqc + 112 field paths, sets extracted from init/initialize/clean_up/UnLoadDatabase/read_input prologue and the 169 functions reachable from read_input): readers_state_reset, every_member_accounted, io_flags_reset, reset_mask_ok, policy_ids_ok, translator_clean, wrapper_members_classified, wrapper_unload_resets, wrapper_survivors_untouched, wrapper_percall_overwritten. Correspondence: seeded histories (calls on 14 shipped databases, setters, one failing call) then load then probe battery vs a fresh instance given only the survivors; black-box channels, wrapper members by model class, generated white-box dump of 680 engine member paths.",
-    note="Trusted: gen_members.py (clang-14 JSON AST walk: reset-form = assignment / .clear() / element assignment in a loop; fails closed into translatorErrors/unknownResetCallees), the reviewed lists of Model/ResetPolicy.lean (scratch, healed, fileNames, ioHealed, wrapperClass), harness/ph_reset.cpp, the comparison in props/c07.py. EngineReset itself is obligation + exploration, not a proof about C++ semantics. Input-given file names (SELECTED_OUTPUT -file, DUMP -file, TRANSPORT -dump_file) are treated as user-set file names and not generated. Members of class types with private state (use, dump_info, delete_info, run_info) are dumped through hand-written getters.",
+    technique="Lean 4: state-machine theorems over all call histories for the IPhreeqc wrapper (unload/load/test_db) with the engine reset only up to an indistinguishability relation; decide over member / pointer / policy-evidence tables regenerated from the clang AST; differential correspondence history+load vs fresh+load on the real code (black box, wrapper members, white-box member dump, deep table hashes)",
+    text="Theorems (Properties/C07.lean, 31): load_resets_wrapper, load_result_eq_fresh, load_then_calls_eq_fresh, load_depends_on_survivors_only, load_keeps_id_and_switches, load_keeps_names, unload_resets under EngineReset; load_resets_wrapper_upto, load_then_calls_eq_fresh_upto, calls_preserve_relation under the weaker Respects/EngineResetUpTo R (simulation proof over every call of the API); c07_member_engine: for every engine whose state is a valuation of the numbered members, whose unload is the reset path as extracted from the source and whose operations cannot see the members reviewed as dead, observations after a successful load equal those of a fresh instance (joins the generated tables to the wrapper theorems through live_members_reset); witnesses load_failure_keeps_output_string, engine_reset_needed. Obligations over Gen/Members.lean (593 members + 112 field paths; sets from init/initialize/clean_up/UnLoadDatabase/read_input prologue and the functions reachable from read_input): readers_state_reset, every_member_accounted, live_members_reset, pointer_members_reset (60 pointer members reassigned; owning pointers released; released pointers reassigned), healed_reasons_hold and scratch_writers_exist (each reviewed reason names a code shape -- unconditional top-level reset, writer function -- that the AST must still show), io_flags_reset, reset_mask_ok, dead_mask_ok, policy_ids_ok, translator_clean, wrapper_* (4). Correspondence: targeted regressions, every failing-call class x LoadDatabase/LoadDatabaseString, ordered pairs of the 17 loadable shipped databases with mass-unit follow-ups at 0-100 C, seeded random histories; compared: all channels, IPhreeqc members by model class, ~680 engine member paths, FNV hashes of 24 tables reachable from the engine (elements, master, species incl. working values, phases, logk, pitzer/sit/theta parameters, aphi, rates and BASIC line pointers, user punch/print, selected-output objects, calculate_values, isotopes, gfw_map, save_values, cell_data).",
+    note="Trusted: gen_members.py (clang-14 JSON AST walk: reset-form = assignment / .clear() / element assignment in a loop; retries a killed clang, fails closed into translatorErrors/unknownResetCallees), the reviewed lists of Model/ResetPolicy.lean (scratch, healed, fileNames, ioHealed, freedElsewhere, wrapperClass -- each reason now tied to a code shape), harness/ph_reset.cpp, the comparison in props/c07.py. Respects (dead members are not read before written) is assumption + exploration, not a proof about C++ semantics. Input-given file names (SELECTED_OUTPUT -file, DUMP -file, TRANSPORT -dump_file) are treated as user-set file names and not generated. Concrete_PHR.dat / Concrete_PZ.dat do not load (input errors) and are not used.",
 )
